@@ -190,6 +190,7 @@ class Harness:
         self.finished = None
         self.responses = []
         self.probe = None
+        self.draining = None
 
     def log(self, kind, **kw):
         self.events.append(dict(kind=kind, q=self.qindex, t=round(self.loop.time(), 3), **kw))
@@ -222,14 +223,19 @@ class Harness:
             asyncio.create_subprocess_shell = real_css
             os.kill, os.killpg, os.getpgid = real_kill, real_killpg, real_getpgid
             try:
+                # drain mode: cancel what is left and let the kill sequences finish in virtual time
                 pending = [t for t in asyncio.all_tasks(self.loop) if not t.done()]
                 for t in pending:
                     t.cancel()
-                self.loop._selector.harness = None
+                self.draining = 0
                 if pending:
                     self.loop.run_until_complete(asyncio.gather(*pending, return_exceptions=True))
-            except Exception:
+            except BaseException:
                 pass
+            finally:
+                self.loop._selector.harness = None
+                for t in asyncio.all_tasks(self.loop):
+                    t._log_destroy_pending = False
             asyncio.set_event_loop(None)
             self.loop.close()
         return self
@@ -340,6 +346,22 @@ class Harness:
         return snap
 
     def quiescent(self, timeout):
+        if self.draining is not None:
+            self.draining += 1
+            if self.draining > 300:
+                raise RuntimeError("drain did not finish")
+            for p in self.procs:
+                if p.live:
+                    p.finish(-9)
+                    return
+            when = None
+            for h in self.loop._scheduled:
+                if not h._cancelled:
+                    when = h._when if when is None else min(when, h._when)
+            if when is None:
+                raise RuntimeError("drain: nothing left to wait for")
+            self.loop._vtime = max(self.loop._vtime, when)
+            return
         if self.ended:
             return
         self.qindex += 1
